@@ -36,6 +36,7 @@ type loopInfo struct {
 	ordinal int
 	backs   []*ssa.BasicBlock // predecessors along back edges
 	frameVars map[string]bool
+	preState  *State
 }
 
 func isHeapVarName(n string) bool {
@@ -95,6 +96,7 @@ type FuncEnc struct {
 	verTop       map[string]string
 	guardedVals  map[string]string
 	deferKey     map[*ssa.Defer]string
+	blockReach   map[*ssa.BasicBlock][]*reachInfo
 }
 
 func (fe *FuncEnc) sorts() *Sorts { return fe.eng.sorts }
@@ -153,6 +155,14 @@ func (fe *FuncEnc) oblige(st *State, kind, label, goal string, pos token.Pos, de
 }
 
 func (fe *FuncEnc) oblige1(st *State, kind, label, goal string, pos token.Pos, descr string) {
+	if c := fe.root().c; c != nil && c.NoSafety {
+		switch kind {
+		case "nil", "bounds", "assert", "div", "panic":
+			// partial correctness: executions that panic here are not considered
+			fe.assume(st, goal)
+			return
+		}
+	}
 	if fe.recording || goal == "true" {
 		if !fe.recording && goal == "true" {
 			fe.trivial++
@@ -242,6 +252,7 @@ func (fe *FuncEnc) Encode() (err error) {
 	fe.findLoops()
 	fe.blockWrites = map[*ssa.BasicBlock]map[string]bool{}
 	fe.blockTargets = map[*ssa.BasicBlock]map[string][]ssa.Value{}
+	fe.blockReach = map[*ssa.BasicBlock][]*reachInfo{}
 	fe.relevant = map[string]bool{}
 	// pass 1: record which heap variables each block writes
 	fe.recording = true
@@ -626,8 +637,10 @@ func (fe *FuncEnc) enterLoop(li *loopInfo, ins []*State) *State {
 		}
 		entryVals[phi] = fe.sc.define(phi.Name()+".entry", fe.sorts().sortOf(phi.Type()), acc)
 	}
+	li.preState = pre
 	if spec != nil {
 		env := fe.envAt(pre, b)
+		env.loopPre = pre
 		env.phiOverride = entryVals
 		for _, inv := range spec.Invs {
 			if t, ok := fe.tryInv(env, inv, false); ok {
@@ -656,6 +669,32 @@ func (fe *FuncEnc) enterLoop(li *loopInfo, ins []*State) *State {
 		st.heap = map[string]string{}
 		st.ep = fe.newEpoch()
 		fe.noteWrite("*")
+	} else if written["*unknown"] {
+		// the loop calls code without a contract that can only reach some types:
+		// forget what it can reach (and everything not yet in use), keep the rest
+		var reaches []*reachInfo
+		for blk := range li.blocks {
+			reaches = append(reaches, fe.blockReach[blk]...)
+		}
+		gr := fe.eng.globalReach()
+		keep := map[string]string{}
+		for hv, t := range st.heap {
+			aff := written[hv] || gr.affected(hv)
+			for _, r := range reaches {
+				if r.affected(hv) {
+					aff = true
+				}
+			}
+			if !aff {
+				keep[hv] = t
+			}
+		}
+		st.heap = keep
+		st.ep = fe.newEpoch()
+		fe.noteWrite("*unknown")
+		for _, r := range reaches {
+			fe.blockReach[b] = append(fe.blockReach[b], r)
+		}
 	} else {
 		for _, n := range sortedKeys(written) {
 			if strings.HasPrefix(n, "local:") || strings.HasPrefix(n, "ghost:") {
@@ -744,6 +783,7 @@ func (fe *FuncEnc) enterLoop(li *loopInfo, ins []*State) *State {
 	}
 	if spec != nil {
 		env := fe.envAt(st, b)
+		env.loopPre = pre
 		for _, inv := range spec.Invs {
 			if t, ok := fe.tryInv(env, inv, false); ok {
 				fe.assume(st, t)
@@ -811,6 +851,7 @@ func (fe *FuncEnc) backEdge(li *loopInfo, from *ssa.BasicBlock, st *State) {
 	}
 	env := fe.envAt(st, b)
 	env.phiOverride = over
+	env.loopPre = li.preState
 	pos := from.Instrs[len(from.Instrs)-1].Pos()
 	if !pos.IsValid() {
 		pos = b.Instrs[0].Pos()
